@@ -17,6 +17,7 @@
                 appointments accepted in this run and dropped
      orphan     every appointment has its user row, every tracker its appointment row
      panic      no thread panicked, no mutex poisoned (the tower still answers), no deadlock
+     linear     among the sequential orders that end in the run's final state one gives the run's replies (readers aside)
      reply      what a get_appointment / get_subscription_info request is told is what it is told in one of the
                 sequential orders (the other replies are tied to the final state by serial / ledger) *)
 open Model
@@ -333,6 +334,17 @@ let monitors (lineno : int) (c : case) (x : run) (roots : string list) : unit =
               (Printf.sprintf "thread=%d,reply=[%s],sequential=[%s]" i (String.concat " " r)
                  (String.concat " || " (List.map (fun sr -> String.concat " " (List.nth sr i)) c.seqreps))) w
       | _ -> ()) c.threads;
+    (* linear: among the sequential orders that end in this state, one gives these replies (readers aside: `reply`) *)
+    (let is_reader th = (match th with [{ op = (OGet _ | OGetSub _); _ }] -> true | _ -> false) in
+     let writers_only reps = List.filteri (fun i _ -> not (is_reader (List.nth c.threads i))) reps in
+     let mine = writers_only (List.map norm_rep x.reps) in
+     let same_state = List.filteri (fun k _ -> snd (List.nth c.seqs k) = x.st) c.seqreps in
+     if c.seqreps <> [] && same_state <> [] && not (List.exists (fun sr -> writers_only sr = mine) same_state) then
+       let ops = String.concat "+" (List.sort compare (List.map (fun th -> String.concat ">" (List.map (fun (a : aop) -> a.kind) th)) c.threads)) in
+       let tags = String.concat "," (List.map (function (t :: _) -> t | [] -> "-") mine) in
+       mon lineno c "linear" (ops ^ ":" ^ tags)
+         (Printf.sprintf "replies=[%s],orders-with-this-state=[%s]" (reps_s x.reps)
+            (String.concat " || " (List.map (fun sr -> reps_s sr) same_state))) w);
     (* serial: the final state is the final state of a sequential order *)
     if not (List.exists (fun (_, s) -> s = x.st) c.seqs) then begin
       (* columns that hold a height read from one of the AtomicU32 heights (or the carrier's copy); the expiry of a
